@@ -3,7 +3,7 @@
 into DESIGN.md between the markers <!-- ASBUILT:BEGIN --> and <!-- ASBUILT:END -->."""
 import json, glob, os, re
 rows=["| id | change | needs, in short | first obligation that reports it |","|---|---|---|---|"]
-for d in sorted(glob.glob('/verif/seeded/C??-?')):
+for d in sorted(glob.glob('/verif/seeded/C??-[0-9]*')):
     m=json.load(open(d+'/meta.json'))
     ch=re.sub(r'^[Cc]hange\s*\d+(\.diff)?\s*[-—–:]+\s*','',m['change']).replace('|','/')
     needs=re.sub(r'^\W*(what is )?needed to manifest( it)?:?\*?\s*','',m['needs_to_manifest'],flags=re.I).replace('|','/')
